@@ -1,6 +1,6 @@
 //! C11 — fixed-capacity, allocation-free operation: overflow is an error, never a panic.
 use crate::alloc_count;
-use crate::bytes::escape;
+use crate::bytes::{escape, B};
 use crate::cap::{dispatch, CapVisitor, MAX_CAP};
 use crate::conv::Target;
 use crate::engine::{CheckResult, Engine, Obs, PropertyMeta};
@@ -237,8 +237,8 @@ fn case_strategy() -> impl Strategy<Value = Case> {
             .units
             .iter()
             .map(|u| {
-                (typed_pulls(&u.data), response(), prop_oneof![30 => Just(None), 1 => err_spec().prop_map(Some)], any::<bool>())
-                    .prop_map(|(pulls, (headers, respond), fail, use_typed)| UnitPlan { pulls: if use_typed { pulls } else { vec![] }, greedy: true, headers, respond, fail, swallow: false })
+                (typed_pulls(&u.data), response(), prop_oneof![30 => Just(None), 1 => err_spec().prop_map(Some)], any::<bool>(), crate::gen::plan::mid_finish())
+                    .prop_map(|(pulls, (headers, respond), fail, use_typed, mid_finish)| UnitPlan { pulls: if use_typed { pulls } else { vec![] }, greedy: true, headers, respond, fail, swallow: false, mid_finish })
                     .boxed()
             })
             .collect();
@@ -260,7 +260,8 @@ fn check_contrib(h: &crate::props::status_common::History, obs: &Obs) -> CheckRe
         ctx.mav = step.mav;
         let mut resp: ArrayVec<u8, 96> = ArrayVec::new();
         let before = alloc_count::count();
-        let res = MIN_TREE.run(&bytes, &mut dev, &mut ctx, &mut resp);
+        let tree = if h.steps.len() % 2 == 1 { &crate::dev488::MIN_TREE_ALT } else { &MIN_TREE };
+        let res = tree.run(&bytes, &mut dev, &mut ctx, &mut resp);
         let after = alloc_count::count();
         runs += 1;
         ensure!(after == before, "heap-allocation", "step {si} {:?}: {} heap allocation call(s) during Node::run on the minimal SCPI device (result {:?})", escape(&bytes), after - before, res.map_err(|e| e.get_code()));
@@ -271,7 +272,88 @@ fn check_contrib(h: &crate::props::status_common::History, obs: &Obs) -> CheckRe
     Ok(())
 }
 
+/// A query message of the mandated commands (after a prelude that fills the error queue),
+/// on one of the two minimal SCPI devices, through EVERY buffer capacity.
+#[derive(Clone, Debug, Hash, Serialize, Deserialize)]
+pub struct ContribCap {
+    alt_tree: bool,
+    prelude: Vec<B>,
+    query: B,
+}
+
+struct ContribRun<'a> {
+    case: &'a ContribCap,
+}
+
+fn contrib_setup(case: &ContribCap) -> crate::dev488::MinDev {
+    let tree = if case.alt_tree { &crate::dev488::MIN_TREE_ALT } else { &crate::dev488::MIN_TREE };
+    let mut dev = crate::dev488::MinDev::new(true);
+    for p in &case.prelude {
+        let mut sink: Vec<u8> = Vec::new();
+        let _ = tree.run(p, &mut dev, &mut Context::default(), &mut sink);
+    }
+    dev
+}
+
+impl<'a> CapVisitor for ContribRun<'a> {
+    type Out = (Result<(), Error>, Vec<u8>, u64);
+    fn visit<const N: usize>(&mut self) -> Self::Out {
+        let tree = if self.case.alt_tree { &crate::dev488::MIN_TREE_ALT } else { &crate::dev488::MIN_TREE };
+        let mut dev = contrib_setup(self.case);
+        let mut resp: ArrayVec<u8, N> = ArrayVec::new();
+        let before = alloc_count::count();
+        let r = tree.run(&self.case.query, &mut dev, &mut Context::default(), &mut resp);
+        let after = alloc_count::count();
+        (r, resp.to_vec(), after - before)
+    }
+}
+
+fn check_contrib_cap(case: &ContribCap, obs: &Obs) -> CheckResult {
+    let tree = if case.alt_tree { &crate::dev488::MIN_TREE_ALT } else { &crate::dev488::MIN_TREE };
+    let mut dev = contrib_setup(case);
+    let mut full: Vec<u8> = Vec::new();
+    let reference = tree.run(&case.query, &mut dev, &mut Context::default(), &mut full);
+    let txt = escape(&case.query);
+    let mut runs = 1;
+    if reference.is_ok() {
+        for cap in 0..=(full.len() + 2).min(MAX_CAP) {
+            let Some((r, buf, allocs)) = dispatch(cap, &mut ContribRun { case }) else { break };
+            runs += 1;
+            ensure!(buf.len() <= cap, "capacity-exceeded", "{txt:?} on the minimal SCPI device: capacity {cap} but buffer holds {}", buf.len());
+            ensure!(allocs == 0, "heap-allocation", "{txt:?} on the minimal SCPI device, capacity {cap}: {allocs} heap allocation call(s) during Node::run");
+            if cap >= full.len() {
+                ensure!(r.is_ok() && buf == full, "fits-but-differs", "{txt:?} on the minimal SCPI device, capacity {cap} >= {}: result {:?}, buffer {:?}; growable buffer gives {:?}", full.len(), r.map_err(|e| e.get_code()), escape(&buf), escape(&full));
+            } else {
+                ensure!(r.map_err(|e| e.get_code()) == Err(-225), "overflow-not-225", "{txt:?} on the minimal SCPI device, capacity {cap} < {}: result {:?}, expected -225", full.len(), r.map_err(|e| e.get_code()));
+            }
+        }
+    }
+    obs.label("contrib capacity sweep");
+    obs.nontrivial_if(reference.is_ok() && full.len() >= 2, case);
+    obs.executions(runs);
+    Ok(())
+}
+
+fn contrib_cap_cases() -> Vec<ContribCap> {
+    let preludes: [&[&str]; 4] = [&[], &["*XYZ"], &["*XYZ", "TEST:FAIL", "*ESE 1 2", "STAT:NOPE?"], &["*ESE 255;*SRE 255;STAT:OPER:ENAB 32767;*OPC"]];
+    let queries = [
+        "*IDN?", "*ESR?", "*STB?", "*ESE?", "*SRE?", "*OPC?", "*TST?", "SYST:ERR?", "SYST:ERR:NEXT?", "SYST:ERR:ALL?", "SYST:ERR:COUN?", "SYST:VERS?", "STAT:OPER?", "STAT:OPER:COND?",
+        "STAT:OPER:ENAB?", "STAT:QUES:ENAB?", "STAT:QUES:NTR?", "STAT:OPER:PTR?", "*IDN?;*IDN?", "*ESR?;*IDN?;SYST:ERR?", "SYST:ERR:ALL?;*IDN?;*STB?", "*IDN?;SYST:ERR:ALL?;:STAT:OPER:PTR?;*OPC?",
+    ];
+    let mut v = Vec::new();
+    for alt_tree in [false, true] {
+        for p in preludes {
+            for q in queries {
+                v.push(ContribCap { alt_tree, prelude: p.iter().map(|s| B::from(*s)).collect(), query: B::from(q) });
+            }
+        }
+    }
+    v
+}
+
 fn run(e: &Engine) {
+    e.fixed("mandated-queries-every-capacity", contrib_cap_cases(), check_contrib_cap);
+
     if !cfg!(debug_assertions) {
         let cases: Vec<Case> = crate::fixtree::size_boundary_plans().into_iter().map(|plans| Case { msg: crate::fixtree::query_message(1), plans }).collect();
         e.fixed("size-boundary-responses", cases, check);
